@@ -1094,16 +1094,25 @@ func (s *Scope) resolveGoFunc(e *Expr) *ssa.Function {
 	}
 	// method on first argument
 	if len(e.Args) > 0 {
-		func() {
-			defer func() { recover() }()
-		}()
 		recv := s.eval(e.Args[0])
+		// ssa.LookupMethod panics on a type without such a method (e.g. an interface): treated as "no such function"
+		lookup := func(t types.Type) (fn *ssa.Function) {
+			defer func() {
+				if recover() != nil {
+					fn = nil
+				}
+			}()
+			return s.c.W.prog.LookupMethod(t, s.pkg.Pkg, e.Name)
+		}
 		if recv.Ty != nil {
-			if fn := s.c.W.prog.LookupMethod(recv.Ty, s.pkg.Pkg, e.Name); fn != nil {
+			if _, isIface := recv.Ty.Underlying().(*types.Interface); isIface {
+				return nil
+			}
+			if fn := lookup(recv.Ty); fn != nil {
 				return fn
 			}
 			if _, isPtr := recv.Ty.Underlying().(*types.Pointer); !isPtr {
-				if fn := s.c.W.prog.LookupMethod(types.NewPointer(recv.Ty), s.pkg.Pkg, e.Name); fn != nil {
+				if fn := lookup(types.NewPointer(recv.Ty)); fn != nil {
 					return nil // would need the address; unsupported
 				}
 			}
